@@ -8,7 +8,7 @@ static mcx::Report R;
 
 static std::vector<Cfg> configs(bool T) {
     std::vector<Cfg> v;
-    std::vector<unsigned> ns = T ? std::vector<unsigned>{4, 6, 8, 12, 16} : std::vector<unsigned>{4};
+    std::vector<unsigned> ns = T ? std::vector<unsigned>{4, 5, 6, 8, 12, 16} : std::vector<unsigned>{4, 5};
     std::vector<unsigned> Ns = T ? std::vector<unsigned>{16, 24, 30, 32, 33, 37, 48, 64, 74, 96, 127, 128, 255, 256} : std::vector<unsigned>{16, 24, 33};
     std::vector<std::vector<uint32_t>> bsets = {{0}, {1}, {1, 0}, {0, 1}, {2, 0}};
     if (T) { bsets.push_back({2, 1, 0}); bsets.push_back({3, 0, 1}); bsets.push_back({2}); bsets.push_back({3, 2, 1, 0}); bsets.push_back({4, 0}); bsets.push_back({0, 2, 5}); }
